@@ -96,7 +96,8 @@ def entry_text(n: Node, sp: Spelling) -> str:
                         + f" {kw('DEPENDING')}" + (f" {kw('ON')}" if sp.on_word else "") + f" {n.odo[2]}"))
     if not n.is_group and n.redefines is None:
         if sp.extra == "value":
-            clauses.append(("extra", f"{kw('VALUE')} {'ZERO' if (n.pic or '').upper().lstrip('S').startswith('9') else chr(39) + 'A. B' + chr(39)}"))
+            lit = "ZERO" if (n.pic or "").upper().lstrip("S").startswith("9") else ("'A. B'", "'COMP'", "'COMP-3 X'", '"BINARY"')[n.level % 4]
+            clauses.append(("extra", f"{kw('VALUE')} {lit}"))
         elif sp.extra in ("just", "just-last") and (n.pic or "").upper().startswith("X"):
             clauses.append(("extra", f"{kw('JUSTIFIED')} {kw('RIGHT')}" if sp.extra == "just" else kw("JUST")))
         elif sp.extra in ("blank", "blank-zeros") and (n.pic or "").upper().lstrip("S").startswith("9") and not usage:
@@ -106,6 +107,8 @@ def entry_text(n: Node, sp: Spelling) -> str:
             clauses.append(("extra", kw("SYNC")))
     if sp.order == "usage-first":
         clauses.sort(key=lambda c: {"usage": 0, "pic": 1, "occurs": 2, "extra": 3}[c[0]])
+    elif sp.order == "extra-first":     # VALUE / JUSTIFIED / BLANK / SYNC written before the USAGE
+        clauses.sort(key=lambda c: {"pic": 0, "extra": 1, "usage": 2, "occurs": 3}[c[0]])
     elif sp.order == "occurs-first":
         clauses.sort(key=lambda c: {"occurs": 0, "pic": 1, "usage": 2, "extra": 3}[c[0]])
     elif sp.extra == "just-last":
@@ -203,7 +206,7 @@ def apply_kind(kind: str, sp: Spelling, rng, levels: list[int]) -> None:
         pick = {k: rng.choice(v) for k, v in SYN.items()}
         sp.synonym = lambda u: pick.get(FAMILY.get(u, ""), u)
     elif kind == "clause-order":
-        sp.order = rng.choice(["usage-first", "occurs-first"])
+        sp.order = rng.choice(["usage-first", "occurs-first", "extra-first"])
     elif kind == "line-breaks":
         sp.breaks = True
     elif kind == "several-entries-per-line":
